@@ -36,6 +36,11 @@ func (pt *PersistentPendingTxs) Push(txs [][]byte, ids [][]byte, timestamp time.
 	return pt.Save()
 }
 
+// Len returns the number of entries that are still waiting in the queue.
+func (pt *PersistentPendingTxs) Len() int {
+	return len(pt.list)
+}
+
 // PopUpToMaxBytes pops transactions from the queue until the total size is less than maxBytes.
 func (pt *PersistentPendingTxs) PopUpToMaxBytes(maxBytes uint64) ([][]byte, [][]byte, uint64, time.Time) {
 	var (
